@@ -53,7 +53,7 @@ SPEC = dict(
                  "code itself is the real one"],
     units=[
         pbt("c15_http", "harness/c15_http.cpp", dict(
-            selfcheck=P(2000, 30000, 1, 2, q_secs=40, t_secs=420),
+            selfcheck=P(2000, 15000, 1, 2, q_secs=40, t_secs=420),
             server_valid=P(300, 2000, 4, 16, q_secs=40, t_secs=420),
             server_badlen=P(300, 2500, 3, 8, q_secs=40, t_secs=420),
             server_bytes=P(1200, 10000, 3, 8, q_secs=40, t_secs=420),
